@@ -298,6 +298,44 @@ class Engine:
             self.oracle_checks += 1
             if after != data:
                 self.fail("cli_compress_clobbers_input:same_explicit", f"`compress same.bin same.bin`: exit status {rc}; the input ({len(data)} bytes) was replaced by {len(after)} bytes (the frame of an EMPTY input: the file was truncated before it was read) — the data is lost", "# ruzstd-cli compress same.bin same.bin --level 1")
+            # … and onto the input file under ANOTHER SPELLING of its path (`sub/../same.bin`, a symbolic link to it, through a
+            # linked directory): the guard must look at the file, not at the string
+            for variant in ("dotdot", "symlink", "linked_dir"):
+                d = self.fresh()
+                data = content(rnd, 4000, 2)
+                open(os.path.join(d, "same.bin"), "wb").write(data)
+                os.makedirs(os.path.join(d, "sub"))
+                if variant == "dotdot":
+                    other = os.path.join("sub", "..", "same.bin")
+                elif variant == "symlink":
+                    os.symlink("same.bin", os.path.join(d, "latest"))
+                    other = "latest"
+                else:
+                    os.symlink(".", os.path.join(d, "here"))
+                    other = os.path.join("here", "same.bin")
+                rc, panicked, _ = self.run(["compress", "same.bin", other, "--level", "1"], d)
+                after = open(os.path.join(d, "same.bin"), "rb").read()
+                self.stat(f"compress:same_path_{variant}:exit={exit_class(rc)}")
+                self.oracle_checks += 1
+                if after != data:
+                    self.fail(f"cli_compress_clobbers_input:{variant}", f"`compress same.bin {other}` (the same file under another spelling): exit status {rc}; the input ({len(data)} bytes) was replaced by {len(after)} bytes — the data is lost", f"# mkdir sub; ln -s same.bin latest; ln -s . here; ruzstd-cli compress same.bin {other} --level 1")
+                # decompress: an archive addressed through the other spelling, output defaulting / pointing to the archive itself
+                d = self.fresh()
+                plain = os.path.join(d, "plain")
+                open(plain, "wb").write(data)
+                subprocess.run(["zstd", "-q", "-f", plain, "-o", os.path.join(d, "arch.zst")], check=True)
+                os.remove(plain)
+                os.makedirs(os.path.join(d, "sub"))
+                os.symlink(".", os.path.join(d, "here"))
+                os.symlink("arch.zst", os.path.join(d, "latest.zst"))
+                target = {"dotdot": os.path.join("sub", "..", "arch.zst"), "symlink": "latest.zst", "linked_dir": os.path.join("here", "arch.zst")}[variant]
+                before = open(os.path.join(d, "arch.zst"), "rb").read()
+                rc, panicked, _ = self.run(["decompress", "arch.zst", target], d)
+                after = open(os.path.join(d, "arch.zst"), "rb").read() if os.path.exists(os.path.join(d, "arch.zst")) else b""
+                self.stat(f"decompress:same_path_{variant}:exit={exit_class(rc)}")
+                self.oracle_checks += 1
+                if after != before:
+                    self.fail(f"cli_decompress_clobbers_input:{variant}", f"`decompress arch.zst {target}` (the archive itself under another spelling): exit status {rc}; the archive ({len(before)} bytes) now has {len(after)} bytes", f"# ln -s . here; ln -s arch.zst latest.zst; mkdir sub; ruzstd-cli decompress arch.zst {target}")
             # no subcommand
             d = self.fresh()
             rc, panicked, _ = self.run([], d)
